@@ -676,8 +676,17 @@ class DumpValidates(PathRule):
     """flags: 'V' validate() called, 'S' serialize() called, 'B' document written (build_file) or delegated to another
     dump(); 'bad' build_file reached without V and S"""
 
-    def __init__(self, selfname):
+    def __init__(self, selfname, model=None, fref=None):
         self.selfname = selfname
+        self.model = model
+        self.fref = fref
+
+    def helper(self, call):
+        if self.model is None:
+            return None
+        from ..walker import unknown_self_helper
+        fn = unknown_self_helper(self.model, self.fref, call, self.selfname)
+        return (fn, self) if fn is not None else None
 
     def effect(self, eff, st):
         if eff.kind == "call" and isinstance(eff.node.func, ast.Attribute):
@@ -704,7 +713,7 @@ def r_dump_validates(model, rep):
     for q in ("common.MetadataBase", "treeinfo.TreeInfo"):
         f = model.own_method(q, "dump")
         selfname = f.node.args.args[0].arg
-        ex = Walker(DumpValidates(selfname)).run(f.node, {frozenset()})
+        ex = Walker(DumpValidates(selfname, model, f)).run(f.node, {frozenset()})
         states = list(ex.normal) + [s_ for s_, _ in ex.ret]
         ok = bool(states) and all("B" in st and "bad" not in st for st in states)
         rep.ob("R-DUMP-VALIDATES", "%s.dump" % q, ok, site=f.module.site(f.node),
@@ -729,10 +738,19 @@ def r_dump_validates(model, rep):
 class ReaderValidates(PathRule):
     """state flag 'D' (dirty): a field of self was assigned from parsed data since the last self.validate()"""
 
-    def __init__(self, selfname, in_aliases):
+    def __init__(self, selfname, in_aliases, model=None, fref=None):
         self.selfname = selfname
         self.aliases = in_aliases
         self.assigned_any = False
+        self.model = model
+        self.fref = fref
+
+    def helper(self, call):
+        if self.model is None or (isinstance(call.func, ast.Attribute) and call.func.attr.startswith(("deserialize", "validate"))):
+            return None
+        from ..walker import unknown_self_helper
+        fn = unknown_self_helper(self.model, self.fref, call, self.selfname)
+        return (fn, self) if fn is not None else None
 
     def effect(self, eff, st):
         if eff.kind == "call":
@@ -804,7 +822,7 @@ def r_reader_validates(model, rep):
         has_validators = bool(facts.validator_methods(cls))
         fn = fref.node
         selfname = fn.args.args[0].arg
-        rule = ReaderValidates(selfname, set())
+        rule = ReaderValidates(selfname, set(), model, fref)
         ex = Walker(rule).run(fn, {frozenset()})
         if not rule.assigned_any:
             # only attaches children through add()/child readers: nothing of its own to validate
